@@ -3,6 +3,7 @@ use crate::engine::Property;
 pub mod common;
 pub mod c01;
 pub mod c02;
+pub mod c03;
 pub mod c04;
 pub mod c05;
 pub mod c06;
@@ -25,6 +26,7 @@ pub fn lookup(id: &str) -> Option<&'static dyn Property> {
     match id {
         "C01" => Some(&c01::C01),
         "C02" => Some(&c02::C02),
+        "C03" => Some(&c03::C03),
         "C04" => Some(&c04::C04),
         "C05" => Some(&c05::C05),
         "C06" => Some(&c06::C06),
